@@ -603,6 +603,33 @@ def check_c12(c, result):
                                                         [texts[ids['A']], texts[ids['B']]] + [t for q_, t in texts.items() if q_ in ids.values()][:6],
                                                         'law %s: got %d results, expected %d; A=%s B=%s forms=%s' % (name, len(got), len(exp), forms['A'], forms['B'], str({k: v for k, v in forms.items() if k in ('PARMIX', 'MIX~min')})[:300]), c.files))
                 break
+    # the same laws where the candidate combinations run into the tens of thousands (two populous kinds): whatever
+    # batches, chunks or streams the candidates must still give set operations
+    NB = 220
+    bigproj = c.work + '/bigproj'
+    src = 'class Big {\n' + ''.join('  int f%d = %d;\n' % (k, k) for k in range(NB)) + ''.join('  void m%d() { }\n' % k for k in range(NB)) + '}\n'
+    qrun.write_project(bigproj, [('Big.java', src.encode())])
+    A, Bq, Cq = 'a.getName() == "f7" || a.getName() == "f8"', 'b.getName() == "m9" || b.getName() == "m8"', 'a.getVariableValue() == "7"'
+    head = 'FROM variable_declaration AS a, method_declaration AS b WHERE '
+    tail = ' SELECT a.getName(), b.getName()'
+    big = [('bigA', head + A + tail), ('bigB', head + Bq + tail), ('bigAND', head + '(%s) && (%s)' % (A, Bq) + tail), ('bigOR', head + '(%s) || (%s)' % (A, Bq) + tail),
+           ('bigCOM', head + '(%s) && (%s)' % (Bq, A) + tail), ('bigNN', head + '!(!(%s))' % A + tail), ('bigABS', head + '(%s) && ((%s) || (%s))' % (A, A, Bq) + tail),
+           ('bigC', head + Cq + tail), ('bigDIS', head + '(%s) && ((%s) || (%s))' % (A, Bq, Cq) + tail)]
+    rb, _, _ = c.run(big, project=bigproj)
+    c.stats['c12_big_product'] = NB * NB
+    if all(rb.get(q_, ('', ''))[0] == 'ok' for q_, _ in big):
+        R = {q_: Counter(map(tuple, qrun.parse_result(rb[q_][1])[1] or [])) for q_, _ in big}
+        for name, got, exp in [('and = intersection', R['bigAND'], R['bigA'] & R['bigB']), ('or = union', R['bigOR'], R['bigA'] | R['bigB']),
+                               ('commutation &&', R['bigCOM'], R['bigAND']), ('double negation', R['bigNN'], R['bigA']), ('absorption', R['bigABS'], R['bigA']),
+                               ('distribution', R['bigDIS'], (R['bigA'] & R['bigB']) | (R['bigA'] & R['bigC']))]:
+            c.stats['c12_laws_checked'] += 1
+            if got != exp or (name == 'and = intersection' and len(exp) != 4):
+                result.violations.append(payload_replay('C12', 'boolean connectives are not set operations over %d candidate combinations: %s' % (NB * NB, name), [t for _, t in big],
+                                                        'law %s: got %d rows, expected %d (rows are pairs of names; the fields f0..f%d and the methods m0..m%d of one class)' % (name, sum(got.values()), sum(exp.values()), NB - 1, NB - 1),
+                                                        [('Big.java', src.encode())]))
+                break
+    else:
+        result.tie_broken.append('C12: a query over %d candidate combinations did not answer: %s' % (NB * NB, str([(q_, rb.get(q_, ('missing', ''))[0]) for q_, _ in big])[:300]))
     c.samples += [tq[0][1], tq[3][1]]
 
 
